@@ -543,13 +543,16 @@ def pt_update_case(args):
     d, e, n = 2, 2, 3
     sigma = np.diag([0.7, 0.3]).astype(complex)
     v = M.generic_unitary(2, 4) if kind.endswith("T") else None
+    recompute = "recompute" in order      # caps are recomputed by compute_caps() instead of being set explicitly
+    order = tuple(o for o in order if o != "recompute")
+    capmode = "computed" if recompute else "explicit"
 
     def tensors(tag):
         if kind.startswith("rank4"):
             ks = [[R.random_free_unitary(d * e, tag + k)] for k in range(n)]
-            return A.build_pt(d, e, sigma, ks, dt=DT, basis_v=v)
+            return A.build_pt(d, e, sigma, ks, dt=DT, basis_v=v, caps=capmode)
         us = [[R.random_free_unitary(e, tag + 10 * k + t) for t in range(d)] for k in range(n)]
-        return A.build_pt(d, e, sigma, None, dt=DT, rank3_us=us, basis_v=v)
+        return A.build_pt(d, e, sigma, None, dt=DT, rank3_us=us, basis_v=v, caps=capmode)
     p1, p2 = tensors(400), tensors(500)
     sysm = oq.System(0.5 * M.SX + 0.2 * M.SZ)
 
@@ -577,11 +580,15 @@ def pt_update_case(args):
                 obj.get_bond_dimensions()
         for k in range(n):
             obj.set_mpo_tensor(k, p2.get_mpo_tensor(k, transformed=False))
-        for k in range(n + 1):
-            obj.set_cap_tensor(k, p2.get_cap_tensor(k))
+        if recompute:
+            obj.compute_caps()
+        else:
+            for k in range(n + 1):
+                obj.set_cap_tensor(k, p2.get_cap_tensor(k))
         after = consume(obj)
         if np.abs(after - fresh2).max() > 1e-10:
-            vio.append((f"pt-update|{kind}|{'file' if file_backed else 'simple'}|after-{'+'.join(order) or 'nothing'}|uses-stale-tensors",
+            vio.append((f"pt-update|{kind}|{'file' if file_backed else 'simple'}|after-{'+'.join(order) or 'nothing'}"
+                        f"{'|caps-recomputed' if recompute else ''}|uses-stale-tensors",
                         f"{kind} file={file_backed}: after {order} and replacing all tensors the dynamics differ from a fresh "
                         f"process tensor by {np.abs(after - fresh2).max():.2e}"))
         for k in range(n):
@@ -682,7 +689,7 @@ def run(tier, seed):
         for cls, what in r["vio"]:
             rep.add(Violation(cls, what, {"part": "retention", "api": nm}))
     ujobs = [(k, f, o) for k in ("rank4", "rank4T", "rank3", "rank3T") for f in (False, True)
-             for o in ((), ("use",), ("get",), ("get", "use"), ("use", "get"))]
+             for o in ((), ("use",), ("get",), ("get", "use"), ("use", "get"), ("recompute",), ("use", "recompute"))]
     ur = pmap(pt_update_case, ujobs, seed=seed)
     for j, r in zip(ujobs, ur):
         nl += r["n"]
